@@ -47,8 +47,12 @@ Theorem C02_sound : forall fuel o wb ts v rest n,
     (forall k, Forall (skippable wb) (lay k)).
 Proof. exact C02_sound_gen. Qed.
 
-(* exact form: for streams as the real tokenizer produces them (no ERRORTOKEN, canonical punctuation) the
-   consumed tokens ARE literally a rendering in a layout of trivia *)
+(* exact form, for streams whose punctuation tokens are literally [op_tok s] (position (1,0)-(1,0)): the consumed
+   tokens ARE a rendering in a layout of trivia.  CAUTION: this is NOT the shape of real tokenizer output -- a real
+   punctuation token carries its own position, so [Forall canon_punct] holds of a real stream only if it has no
+   punctuation at all (Props/Lexer.v: Lexer_not_canon_punct, Lexer_canon_punct_iff_no_punct; found when the
+   character-level lexer model was connected to this theory).  For real streams use C02_sound above (rendering up to
+   [tok_sim], i.e. up to the positions of punctuation tokens) or Lexer_api_sound, which starts from characters. *)
 Theorem C02_sound_exact : forall fuel o wb ts v rest n,
   parse_value fuel o wb ts = POk (v, rest) ->
   Forall (lit_tok o) ts -> Forall (plain_tok wb) ts -> Forall canon_punct ts ->
@@ -197,7 +201,8 @@ Theorem C02_api_sound_skip : forall o ts v,
     (forall k, Forall (skippable false) (lay k)) /\
     skip (S (List.length rest)) end_types rest = POk rest' /\ ty (cur rest') = ENDMARKER.
 Proof. exact api_sound_skip. Qed.
-(* exact form, for streams as the real tokenizer produces them *)
+(* exact form for streams with canonical punctuation tokens (same caution as for C02_sound_exact: real streams are
+   covered by C02_api_sound and, from characters, by Lexer_api_sound / C02_api_sound_plain in Props/Lexer.v) *)
 Theorem C02_api_sound_exact : forall o ts v,
   parse_single_value o ts = POk v ->
   Forall (lit_tok o) ts -> Forall (plain_tok false) ts -> Forall canon_punct ts ->
